@@ -6,6 +6,7 @@ from ..const import EnumVal
 from ..index import AnalysisError, norm, ClassInfo
 from ..report import rule
 from ..resolve import walk_own
+from .c18 import is_html_escape
 
 PARSE = 'bardolph.parser.parse'
 VMMATH = 'bardolph.vm.vm_math'
@@ -717,7 +718,7 @@ def r20r(R):
     n = 0
     for f in A.repo.all_functions('web'):
         for c in A.calls_in(f):
-            if norm(c.func) not in ('html.escape', 'escape'):
+            if not is_html_escape(f, c.func):
                 continue
             n += 1
             q = [k.value for k in c.keywords if k.arg == 'quote']
